@@ -22,8 +22,8 @@ EXPLANATION = (
     " (CTX, GUARD, LOOP-LABEL) `break` / `goto` are emitted only where legal: the checker's inside_loop flag is true exactly for a loop's body and reset by function literals, and the lowering hands the body the label that the loop itself writes."
     ' (BUDGET) the number of Lua locals per function and the nesting depth of inlined expressions are bounded independently of source length (both obligations fail: known findings).'
 )
-UNDECIDED = ("Lua's resource limits (200 locals per function, 60 upvalues, constant table size, nesting depth): they depend on "
-             "program size and no template-level rule bounds them.")
+UNDECIDED = ("Lua's 60-upvalue and constant-table limits; the two limits a structural rule can reach (200 locals per function, "
+             "200 syntax levels) are the BUDGET obligations, which fail on the current tree (known findings).")
 
 MANIFEST = dict(
     text=EXPLANATION + " Not decided: " + UNDECIDED,
